@@ -1772,6 +1772,55 @@ def G27_unique_count_vs_size(repo, clause, scope=ALL_LIB):
     return obs
 
 
+def G28_alias_sibling_update(repo, clause, scope=ALL_LIB):
+    """`obj.attr = x` stores the ARRAY x in the object (no copy).  Afterwards `x %= box` (in place) changes what the object holds, `x = f(x)` (re-binding) does not.
+    Two sibling branches that update x after the store, one in place and one by re-binding, cannot both be right: on the re-binding branch the new value never
+    reaches the object unless it is stored again."""
+    obs = []
+    fns = _scope_fns(repo, scope)
+    n = 0
+    for fn in fns:
+        for st in [x for x in fn.own_nodes() if isinstance(x, ast.Assign) and len(x.targets) == 1 and isinstance(x.targets[0], ast.Attribute)
+                   and isinstance(x.targets[0].value, ast.Name) and isinstance(x.value, ast.Name)]:
+            x = st.value.id
+            obj, attr = st.targets[0].value.id, st.targets[0].attr
+            # x is an array for certain: bound to the result of a numpy-style computation
+            try:
+                ds = [d for d in fn.rd.defs_at(st, x) if isinstance(d, ast.AST)]
+            except Exception:
+                continue
+            if not ds or not all(isinstance(d, ast.Assign) and any(isinstance(y, ast.Call) for y in ast.walk(d.value)) for d in ds):
+                continue
+            for iff in [y for y in fn.own_nodes() if isinstance(y, ast.If) and y.orelse and fn.cfg.reaches(st, y)]:
+                def kinds(block):
+                    inpl = [z for s_ in block for z in ast.walk(s_) if isinstance(z, ast.AugAssign) and isinstance(z.target, ast.Name) and z.target.id == x]
+                    reb = [z for s_ in block for z in ast.walk(s_) if isinstance(z, ast.Assign) and any(isinstance(t, ast.Name) and t.id == x for t in z.targets)]
+                    return inpl, reb
+                bi, br = kinds(iff.body)
+                oi, or_ = kinds(iff.orelse)
+                pairs = []
+                if bi and not br and or_ and not oi:
+                    pairs.append((bi[0], or_[0]))
+                if oi and not or_ and br and not bi:
+                    pairs.append((oi[0], br[0]))
+                for inplace, rebind in pairs:
+                    # is the object's attribute stored again after the re-binding (on the way to the exit / next iteration)?
+                    restored = [z for z in fn.own_nodes() if isinstance(z, ast.Assign) and z is not st and any(
+                        isinstance(t, ast.Attribute) and isinstance(t.value, ast.Name) and t.value.id == obj and t.attr == attr for t in z.targets) and fn.cfg.reaches(rebind, z)
+                        and not fn.cfg.reaches(z, st)]
+                    n += 1
+                    if restored:
+                        continue
+                    obs.append(Ob("G28", clause, fn, rebind, False,
+                                  "`%s = %s` stored the array in the object; the sibling branch `%s` then changes it in place (the object sees it), but `%s` RE-BINDS the local: "
+                                  "the new value never reaches %s.%s on this branch (it is not stored again)" % (
+                                      ast.unparse(st.targets[0]), x, ast.unparse(inplace)[:40], ast.unparse(rebind)[:50], obj, attr),
+                                  slot="alias-sibling:%s:%s" % (fn.qualname, x), positive="robust"))
+    obs.append(Ob("G28", clause, fns[0], fns[0].node, True, "%d functions in scope, %d in-place / re-binding sibling pairs after an attribute store examined" % (len(fns), n),
+                  construct="alias update inventory", slot="inventory"))
+    return obs
+
+
 def G10_defined_before_use(repo, clause, scope=ALL_LIB):
     """A local name is read only where at least one of its assignments can reach (reaching definitions over the statement CFG).  A read that NO
     assignment reaches - typically after two statements were exchanged or a line was moved above the one that defines its input - raises
